@@ -4,6 +4,7 @@ from pyvc.contract import contract
 contract("C07.get_org_span_from_strings",
          file="hed/models/hed_string.py", func="HedString._get_org_span_from_strings",
          params={"self": "HedString", "tag_or_group": "HedTag"}, returns="Tuple[Opt[Int],Opt[Int]]", enc="native",
+         also=["C12"],
          lets={"L": "self._from_strings", "t": "tag_or_group"},
          ensures={
              "C07.span.absent_when_in_no_part": "implies(all(not in_original(L[k], t) for k in range(len(L))),"
